@@ -110,6 +110,8 @@ func (f *FieldR) goType() reflect.Type {
 		return reflect.TypeOf([]any(nil))
 	case "parr":
 		return reflect.TypeOf([2]*int64{})
+	case "mapany":
+		return reflect.TypeOf(map[string]any(nil))
 	case "mapsi":
 		return reflect.TypeOf(map[string]int64(nil))
 	case "pint":
@@ -252,6 +254,14 @@ func (f *FieldR) fill(rv reflect.Value) {
 			copy(s, v.Strs)
 			rv.Set(reflect.ValueOf(s))
 		}
+	case "mapany": // a map of anything: struct pointers directly and inside a list
+		if !v.Nil {
+			m := map[string]any{"one": &Inner{X: 1}, "parts": []any{&Inner{X: 2, Y: "p"}, int64(3)}}
+			for _, x := range v.Strs {
+				m["s"] = x
+			}
+			rv.Set(reflect.ValueOf(m))
+		}
 	case "parr": // an array of pointers, the first nil unless the value says otherwise
 		a := [2]*int64{}
 		if len(v.Ints) > 0 {
@@ -327,6 +337,8 @@ func (f *FieldR) fill(rv reflect.Value) {
 			rv.Set(reflect.ValueOf((*Inner)(nil)))
 		case "ptr":
 			rv.Set(reflect.ValueOf(&Inner{X: int(v.I % 1000)}))
+		case "mapptr": // a map whose members hold struct pointers, directly and inside a list
+			rv.Set(reflect.ValueOf(map[string]any{"one": &Inner{X: 1, Y: v.S}, "parts": []any{&Inner{X: int(v.I % 1000)}, int64(2)}, "n": v.I}))
 		}
 	case "struct":
 		rv.Set(f.Sub.newWith(rv.Type(), v))
@@ -441,7 +453,7 @@ func keyNorm(name string) string {
 
 var scalarKinds = []string{"bool", "int", "int8", "int16", "int32", "int64", "uint", "uint8", "uint16", "uint32", "uint64", "float32", "float64", "string", "string", "int64",
 	"nuint16", "nint32", "nbool", "nfloat64", "nstring"} // n...: named types with that underlying kind
-var otherKinds = []string{"bytes", "ints", "strs", "mapsi", "pint", "pstr", "ppint", "any", "any", "arr3", "mapsm", "nstrs", "nports", "nmapli", "anys", "parr"}
+var otherKinds = []string{"bytes", "ints", "strs", "mapsi", "pint", "pstr", "ppint", "any", "any", "arr3", "mapsm", "nstrs", "nports", "nmapli", "anys", "parr", "mapany"}
 var structKinds = []string{"struct", "pstruct", "structs", "pstructs", "mapst"}
 var tagForms = []string{"", "", "", `json:"%s"`, `json:"%s,omitempty"`, `json:",omitempty"`, `json:"-"`, `json:"%s,string"`, `json:"-,"`}
 var tagNames = []string{"a", "b", "name", "x_y", "Upper", "id", "with space", "é"}
@@ -562,7 +574,7 @@ func drawValue(t *rapid.T, f *FieldR, depth int) *ValueR {
 				v.Ints = append(v.Ints, rapid.SampledFrom(valueInts).Draw(t, "ei"))
 			}
 		}
-	case "strs", "nstrs", "anys":
+	case "strs", "nstrs", "anys", "mapany":
 		v.Nil = rapid.IntRange(0, 3).Draw(t, "nil") == 0
 		if !zero {
 			n := rapid.IntRange(1, 3).Draw(t, "n")
@@ -585,7 +597,7 @@ func drawValue(t *rapid.T, f *FieldR, depth int) *ValueR {
 			v.I = rapid.SampledFrom(valueInts).Draw(t, "pi")
 		}
 	case "any":
-		v.Any = rapid.SampledFrom([]string{"nil", "bool", "int", "float", "string", "ints", "map", "nilptr", "ptr", "mixed"}).Draw(t, "anykind")
+		v.Any = rapid.SampledFrom([]string{"nil", "bool", "int", "float", "string", "ints", "map", "nilptr", "ptr", "mixed", "mapptr"}).Draw(t, "anykind")
 		v.B = true
 		v.I = rapid.SampledFrom(valueInts).Draw(t, "ai")
 		v.F = 2.5
